@@ -113,9 +113,13 @@ class Gen:
         return "".join(wiregen.sig(t) for t in tys), vals
 
     # ---- op kinds
-    def step(self):
+    def pick(self):
         kinds = list(self.w)
-        k = self.r.choices(kinds, [self.w[x] for x in kinds])[0]
+        return self.r.choices(kinds, [self.w[x] for x in kinds])[0]
+
+    def step(self, k=None):
+        if k is None:
+            k = self.pick()
         if not self.open or (k == "connect" and len(self.open) < self.max_conns):
             if len(self.open) < self.max_conns:
                 cid = self.do_connect(); self.count("connect")
